@@ -222,7 +222,7 @@ func faultsDecorate(src []byte, mode string) []faultObs {
 func checkC17(c *Ctx) {
 	c.Assume("failures are injected through wrappers around the public RestorerResolver / DecoratorResolver interfaces; each failing call returns a distinct sentinel error")
 	for _, mf := range []bool{false, true} {
-		r, err := RunTLC(TLCRun{Module: "Faults", Workers: 2, Timeout: 5 * time.Minute, Cfg: fmt.Sprintf("CONSTANTS NCalls = 4 MutateFirst = %s\nINIT Init\nNEXT Next\nINVARIANTS ErrorReturned NoOutputOnError TreeUnchangedOnError RetrySucceeds\nCHECK_DEADLOCK FALSE\n", tlaBool(mf))})
+		r, err := RunTLC(TLCRun{Module: "Faults", Workers: 2, Timeout: 5 * time.Minute, Cfg: fmt.Sprintf("CONSTANTS NCalls = 4 MutateFirst = %s CacheOnFailure = FALSE\nINIT Init\nNEXT Next\nINVARIANTS ErrorReturned NoOutputOnError TreeUnchangedOnError RetrySucceeds RetryComplete\nCHECK_DEADLOCK FALSE\n", tlaBool(mf))})
 		if err != nil || (!mf && !r.OK()) || (mf && r.Violated == "") {
 			c.Infra("TLC (Faults) unexpected result: " + errText(r, err))
 			return
@@ -231,7 +231,12 @@ func checkC17(c *Ctx) {
 			c.TLC(r)
 		}
 	}
-	c.Set("model", "Faults.tla: every call order x every failure position for 4 resolver calls; the mutate-before-resolve variant is rejected")
+	// a resolver that keeps the half-built table of a failed attempt: the retry is not the clean run
+	if r, err := RunTLC(TLCRun{Module: "Faults", Workers: 2, Timeout: 5 * time.Minute, Cfg: "CONSTANTS NCalls = 4 MutateFirst = FALSE CacheOnFailure = TRUE\nINIT Init\nNEXT Next\nINVARIANTS RetryComplete\nCHECK_DEADLOCK FALSE\n"}); err != nil || r.Violated != "RetryComplete" {
+		c.Infra("TLC did not reject the cache-on-failure variant of Faults: " + errText(r, err))
+		return
+	}
+	c.Set("model", "Faults.tla: every call order x every failure position for 4 resolver calls, resolver objects that outlive the attempt; the mutate-before-resolve and cache-on-failure variants are rejected")
 
 	r := rand.New(rand.NewSource(c.Seed))
 	var all []faultObs
